@@ -51,6 +51,13 @@ FALSE_LIKE = ["false", "0", "no", "off", "f", "FALSE", " off ", "F", "False", "N
 GARBAGE = ["maybe", "2", "yess", "tru e", "nope", "enable", "y", "oui", "-1", "true,false"]
 
 
+def anycase(v, rng):
+    """The spellings are case-insensitive: half of the time use a random mix of upper and lower case."""
+    if rng.random() < 0.5:
+        return v
+    return "".join(c.upper() if rng.random() < 0.5 else c.lower() for c in v)
+
+
 def list_string(items, rng, upper_noise=False):
     items = list(items)
     rng.shuffle(items)
@@ -69,16 +76,28 @@ def list_string(items, rng, upper_noise=False):
     return ",".join(out)
 
 
-def concretise(sc, rng):
+def mixed(v):
+    """Alternate lower / upper case, starting lower: tRuE, yEs, oN, fAlSe."""
+    out, up = [], False
+    for c in v:
+        if c.isalpha():
+            out.append(c.upper() if up else c.lower())
+            up = not up
+        else:
+            out.append(c)
+    return "".join(out)
+
+
+def concretise(sc, rng, force_mixed=False):
     """Returns (env dict, argv list)."""
     env, argv = {}, []
     e, a = sc["env"], sc["argv"]
     if e["scan"] == "empty":
         env["GOGREEMENT_SCAN_TESTS"] = ""
     elif e["scan"] == "true":
-        env["GOGREEMENT_SCAN_TESTS"] = rng.choice(TRUE_LIKE)
+        env["GOGREEMENT_SCAN_TESTS"] = mixed(rng.choice(["true", "yes", "on", " true ", "t"])) if force_mixed else anycase(rng.choice(TRUE_LIKE), rng)
     elif e["scan"] == "false":
-        env["GOGREEMENT_SCAN_TESTS"] = rng.choice(FALSE_LIKE)
+        env["GOGREEMENT_SCAN_TESTS"] = mixed(rng.choice(["false", "no", "off", "f"])) if force_mixed else anycase(rng.choice(FALSE_LIKE), rng)
     elif e["scan"] == "garbage":
         env["GOGREEMENT_SCAN_TESTS"] = rng.choice(GARBAGE)
     if a["scan"] == "true":
